@@ -3917,7 +3917,14 @@ class StaleFileRemovalCommand : public Command {
     return false;
   }
 
-  virtual void start(BuildSystem&, TaskInterface) override {}
+  virtual void start(BuildSystem&, TaskInterface) override {
+    // The command outlives a build when the build system is reused: forget
+    // what was computed from the prior value of an earlier build (the current
+    // prior value is provided again before the command executes).
+    computedFilesToDelete = false;
+    filesToDelete.clear();
+    hasPriorResult = false;
+  }
 
   virtual void providePriorValue(BuildSystem&, TaskInterface,
                                  const BuildValue& value) override {
